@@ -378,7 +378,7 @@ def main(tier, seed):
     cov["rule"] = ("CSR width 8/16/32/64 x ratio 1/2/4/8 (<=64 bit) x CSR address width log2(ratio)..+2 (thorough +3); driver = "
                    "Wishbone classic initiator automaton (idle, cyc only, stb only, every transfer; held to ack; back-to-back); "
                    "harness B through real registers")
-    return finish(PID, tier, seed, "model_checking", cov, ASSUMPTIONS, t0, results)
+    return finish(PID, tier, seed, "model_checking", cov, ASSUMPTIONS, t0, results, min_explored=int(0.9 * len(results)))
 
 
 ASSUMPTIONS = [
